@@ -261,6 +261,11 @@ def check_C19(tier, seed):
     for _ in range(4000 if tier == "quick" else 40000):
         r = rnd.choice([rnd.uniform(0, 500), rnd.uniform(200, 200000), rnd.choice(RATES[:-1]) + rnd.random()])
         pts.append((rnd.randrange(0, 1 << rnd.randrange(1, 30)), repr(r)))
+    # rates just below, on and just above multiples of the quantisation step 210 (where floor, round and ceil of the rate differ)
+    for m in (1, 2, 3, 10, 209, 210, 211, 228, 229, 457, 458, 914, rnd.randrange(4, 1000), rnd.randrange(4, 1000)):
+        for d in (-1.0, -0.75, -0.5, -0.25, -1e-6, 0.0, 1e-6, 0.25, 0.5, 0.75):
+            for n in (1, 209, 210 * m, 1024 * 210 * m + 1, rnd.randrange(1, 1 << 28)):
+                pts.append((n, repr(210.0 * m + d)))
     wide = []
     for _ in range(60 if tier == "quick" else 300):
         n = rnd.randrange(1 << 30, 1 << 62) if rnd.random() < 0.8 else (1 << rnd.randrange(31, 63)) + rnd.randrange(-2, 3)
